@@ -34,6 +34,16 @@ public:
         quint16 port;
         QList<Datagram> queue;
     };
+    // full-cone NAT: everything a socket sends to the outside leaves from its public mapping, everything sent to
+    // the public mapping reaches the socket; the private address is unreachable from outside
+    struct NatMapping {
+        QHostAddress priv;
+        quint16 privPort;
+        QHostAddress pub;
+        quint16 pubPort;
+    };
+    QList<NatMapping> nat;
+    quint64 droppedPrivate = 0;
     QList<Bound> sockets;            // in bind order (never iterated by pointer value)
     QList<Datagram> inflight;        // sent, not yet delivered or dropped
     int nextId = 1;
